@@ -117,7 +117,8 @@ D0 == {0}
 W12 == {1, 2}
 W012 == {0, 1, 2, 4}
 ErrApi == {"api"}
-ErrAll == {"api", "transport", "timeout"}
+ErrApiSoft == {"api", "soft"}     \* "soft": the runner returns success: False with a weight (no exception)
+ErrAll == {"api", "transport", "timeout", "soft"}
 Inc013 == {0, 1, 3}
 Inc0125 == {0, 1, 2, 5}
 Ext2 == {2}
